@@ -37,7 +37,7 @@ CONSTANTS
   CRange,       \* CRange[api] = <<min, max>> implemented by the client
   Reqs,         \* request ids (naturals >= 1)
   Menu,         \* Menu[r]: set of request descriptors r may be
-  MoveKinds,    \* which changes of the cluster the environment may make: subset of {"leader","add","remove","topic","coord","txn","ctrlr"}
+  MoveKinds,    \* which changes of the cluster the environment may make: subset of {"leader","add","addr","remove","topic","coord","txn","ctrlr"}
   MaxConns, MaxMoves, MaxCancels, MaxCuts, MaxRefresh, MaxExpire, MaxCloseIdle,
   AnyConnId,    \* FALSE: connections are numbered in the order they are opened (model checking); TRUE: any free number
                 \* (journals number them in dial order, which may differ from the order of the decisions to connect)
@@ -87,9 +87,11 @@ Neg(c, api) == Select(api, conns[c].peer)
 
 (* the view of the cluster a metadata response carries *)
 Asked(c) == IF cf.mt.on THEN c.topics \cap cf.mt.names ELSE c.topics
-View(c) == [alive |-> c.alive, ctrlr |-> c.ctrlr, topics |-> Asked(c), ver |-> c.ver,
+\* (addr[b]: the address -- host, port -- broker b advertises, as a generation number: it changes when the broker
+\* re-registers under the same id with another address)
+View(c) == [alive |-> c.alive, ctrlr |-> c.ctrlr, topics |-> Asked(c), ver |-> c.ver, addr |-> [b \in c.alive |-> c.addr[b]],
             leader |-> [tp \in { x \in TPs : x[1] \in Asked(c) } |-> c.leader[tp]]]
-NoSnap == [alive |-> {}, ctrlr |-> 0, topics |-> {}, ver |-> 0, leader |-> << >>]
+NoSnap == [alive |-> {}, ctrlr |-> 0, topics |-> {}, ver |-> 0, addr |-> << >>, leader |-> << >>]
 SnapOf(n) == IF n \in DOMAIN snaps THEN snaps[n] ELSE NoSnap
 Latest == Len(snaps)
 
@@ -155,18 +157,20 @@ CanRoute(r, i) ==
 
 -----------------------------------------------------------------------------
 NoConn == [st |-> "none", grp |-> 0, peer |-> 0, cur |-> <<0, 0>>, reqq |-> << >>, wire |-> << >>,
-           cut |-> FALSE, failed |-> FALSE, gclosed |-> FALSE, peerDown |-> FALSE]
+           cut |-> FALSE, failed |-> FALSE, gclosed |-> FALSE, peerDown |-> FALSE, ep |-> 0]
 NoReq == [pc |-> "new", d |-> [cls |-> "none"], snap |-> 0, cancelled |-> "no", result |-> [kind |-> "none"], legs |-> << >>,
           woke |-> FALSE]
 NoDisc == [pc |-> "sleep", first |-> TRUE, notify |-> {}, ok |-> FALSE, meta |-> NoSnap]
 Tick(n) == IF Hist THEN n + 1 ELSE n
+\* gaddr[b]: the address the connection group of broker b is bound to (newBrokerConnGroup)
+NoPool == [ready |-> FALSE, err |-> FALSE, base |-> 0, groups |-> {}, idle |-> [g \in Groups |-> << >>], gaddr |-> [b \in Brokers |-> 0]]
 NoBudget == [moves |-> 0, cancels |-> 0, cuts |-> 0, refresh |-> 0, expire |-> 0, closeidle |-> 0]
 
 Init ==
   /\ cl = [alive |-> Cluster0.alive, leader |-> Cluster0.leader, coord |-> Cluster0.coord, txn |-> Cluster0.txn,
-           ctrlr |-> Cluster0.ctrlr, topics |-> Cluster0.topics, ver |-> 1]
+           ctrlr |-> Cluster0.ctrlr, topics |-> Cluster0.topics, ver |-> 1, addr |-> [b \in Brokers |-> 1]]
   /\ moves = << >> /\ snaps = << >>
-  /\ pool = [ready |-> FALSE, err |-> FALSE, base |-> 0, groups |-> {}, idle |-> [g \in Groups |-> << >>]]
+  /\ pool = NoPool
   /\ disc = NoDisc
   /\ conns = [c \in Conns |-> NoConn]
   /\ rq = [r \in Reqs |-> NoReq]
@@ -231,7 +235,8 @@ RouteConnect(r, i, c) ==
   /\ LET d == Dest(r, i) IN
        /\ d = 0 \/ d \in pool.groups
        /\ pool.idle[d] = << >>
-       /\ conns' = [conns EXCEPT ![c] = [NoConn EXCEPT !.st = "connecting", !.grp = d, !.cur = <<r, i>>]]
+       /\ conns' = [conns EXCEPT ![c] = [NoConn EXCEPT !.st = "connecting", !.grp = d, !.cur = <<r, i>>,
+                                                         !.ep = IF d = 0 THEN 0 ELSE pool.gaddr[d]]]
   /\ rq' = SetLeg(r, i, [rq[r].legs[i] EXCEPT !.st = "wait", !.c = c])
   /\ UNCHANGED <<cl, moves, snaps, pool, disc, sent, served, budget>>
 
@@ -307,7 +312,7 @@ Serve(c) ==
        /\ conns' = [conns EXCEPT ![c].reqq = Tail(@), ![c].wire = Append(@, Answer(r, i, l, b))]
        /\ sent' = IF r = 0 THEN sent
                   ELSE Append(sent, [r |-> r, i |-> i, api |-> l.api, cls |-> l.cls, tp |-> l.tp, dest |-> b, grp |-> conns[c].grp,
-                                     c |-> c, ver |-> Neg(c, l.api), snap |-> rq[r].snap, prev |-> IF i > 1 THEN rq[r].legs[i - 1] ELSE l])
+                                     c |-> c, ver |-> Neg(c, l.api), snap |-> rq[r].snap, ep |-> conns[c].ep, latest |-> Latest, prev |-> IF i > 1 THEN rq[r].legs[i - 1] ELSE l])
        \* CreateTopics at the controller creates the topic (leaders round-robin over the brokers), DeleteTopics removes it
        /\ IF r # 0 /\ l.api = "CreateTopics" /\ cl.ctrlr = b /\ rq[r].d.topic \notin cl.topics
             THEN cl' = [cl EXCEPT !.topics = @ \cup {rq[r].d.topic}, !.ver = @ + 1,
@@ -466,10 +471,16 @@ DiscConnectRefused ==
 Update ==
   /\ disc.pc = "got"
   /\ IF disc.ok
-       THEN LET m == disc.meta  gone == pool.groups \ m.alive IN
+       THEN LET m == disc.meta
+                \* a known broker whose address changed gets a new connection group (the old one is closed)
+                moved == IF Bug = "keepGroupOnReaddress" THEN {}
+                         ELSE { b \in pool.groups \cap m.alive : m.addr[b] # pool.gaddr[b] }
+                gone == (pool.groups \ m.alive) \cup moved IN
             /\ snaps' = IF Hist THEN Append(snaps, m) ELSE << m >>
             /\ pool' = [pool EXCEPT !.ready = TRUE, !.err = FALSE, !.groups = m.alive,
-                                    !.idle = [g \in Groups |-> IF g \in gone THEN << >> ELSE pool.idle[g]]]
+                                    !.idle = [g \in Groups |-> IF g \in gone THEN << >> ELSE pool.idle[g]],
+                                    !.gaddr = [b \in Brokers |-> IF b \in m.alive /\ (b \notin pool.groups \/ b \in moved)
+                                                                   THEN m.addr[b] ELSE pool.gaddr[b]]]
             /\ conns' = [c \in Conns |->
                            IF conns[c].grp \in gone /\ conns[c].st = "idle" THEN [conns[c] EXCEPT !.st = "dead"]
                            ELSE IF conns[c].grp \in gone /\ conns[c].st \in {"busy", "connecting"} THEN [conns[c] EXCEPT !.gclosed = TRUE]
@@ -497,7 +508,7 @@ CloseIdle ==
                  IF conns[c].st = "idle" THEN [conns[c] EXCEPT !.st = "dead"]
                  ELSE IF conns[c].st \in {"busy", "connecting"} THEN [conns[c] EXCEPT !.gclosed = TRUE, !.cur = <<0, 0>>]
                  ELSE conns[c]]
-  /\ pool' = [ready |-> FALSE, err |-> FALSE, base |-> Latest, groups |-> {}, idle |-> [g \in Groups |-> << >>]]
+  /\ pool' = [NoPool EXCEPT !.base = Latest]
   /\ disc' = NoDisc
   /\ UNCHANGED <<cl, moves, snaps, rq, sent, served>>
 
@@ -511,6 +522,12 @@ LeaderMove(tp, b) ==
   /\ cl' = [cl EXCEPT !.leader[tp] = b, !.ver = @ + 1]
   /\ moves' = Append(moves, [tp |-> tp, to |-> b, at |-> cl.ver + 1])
   /\ Quiet /\ UNCHANGED conns
+
+\* a broker re-registers under the same id with another address; whatever listens on the old one stays up
+Readdress(b) ==
+  /\ Spend /\ b \in cl.alive
+  /\ cl' = [cl EXCEPT !.addr[b] = @ + 1, !.ver = @ + 1]
+  /\ Quiet /\ UNCHANGED <<conns, moves>>
 
 BrokerAdd(b) ==
   /\ Spend /\ b \in Brokers \ cl.alive
@@ -544,6 +561,7 @@ CoordinatorMove(which, b) ==
 Env ==
   \/ "leader" \in MoveKinds /\ \E tp \in TPs, b \in Brokers : LeaderMove(tp, b)
   \/ "add" \in MoveKinds /\ \E b \in Brokers : BrokerAdd(b)
+  \/ "addr" \in MoveKinds /\ \E b \in Brokers : Readdress(b)
   \/ "remove" \in MoveKinds /\ \E b \in Brokers, h \in Brokers : BrokerRemove(b, h)
   \/ "topic" \in MoveKinds /\ \E t \in Topics : TopicCreate(t)
   \/ \E w \in {"coord", "txn", "ctrlr"} \cap MoveKinds, b \in Brokers : CoordinatorMove(w, b)
@@ -582,6 +600,12 @@ C12_Routing ==
 \* ... and that snapshot was the latest one applied when the round trip grabbed the pool state
 C12_GrabIsLatest ==
   [][\A r \in Reqs : (rq[r].pc = "wait" /\ rq'[r].pc = "run") => rq'[r].snap = Latest]_vars
+
+\* C12: ... at the address that broker advertises: the connection carrying the request was opened to the address
+\* given by the snapshot the call was routed with or by a later one applied before the request was served
+C12_Address ==
+  \A k \in S : LET s == sent[k] IN
+     s.grp > 0 => \E n \in s.snap .. s.latest : s.grp \in DOMAIN SnapOf(n).addr /\ SnapOf(n).addr[s.grp] = s.ep
 
 \* C12: the version on the wire is the highest both sides implement, inside the advertised range
 C12_Version ==
